@@ -24,4 +24,19 @@ PROPS = {
                "[-2pi,2pi] with NaN entries) x four entry points (+ hook-level inverse_intern/inverse_intern_5_dof) x "
                "bare / tool-base-frame stacks to depth 3 (axial stacks for the 5-DOF entry points) x dof 5/6. "
                "non-trivial = the implementation returned at least one solution"),
+    "C06": cfg(1500, 150000, ["C06.", "C01.fk", "C01.finite"],
+               "robot zoo with dof in {5,6} (5-DOF robots have sign6 = 0) x pose families x J6 in {0,+-1,+-10,1e-300,2.5} / previous "
+               "vectors with J6 in {0,+-2.5,6,0.3} x four entry points x bare / axial tool-base-frame stacks x with and without "
+               "limits; hook-level inverse_intern_5_dof. non-trivial = at least one solution returned"),
+    "C07": cfg(20000, 200000, ["C07."],
+               "exhaustive lattice (quick 15 degrees, thorough 5 degrees) over from,to,angle in [-720,720] degrees through the three "
+               "constructors (new, from_degrees, new+update_range), six (from,to) pairs per line against every lattice angle; plus "
+               "random reals incl. from==to, spans >= 2pi, narrow ranges, whole-turn shifted copies of an angle; compliant, filter "
+               "and hook-level inside_bounds/centres compared EXACTLY with the model; arc oracle skipped within 1e-9 of an arc end. "
+               "non-trivial = every line (each carries >= 120 per-joint verdicts; tags checked/accepted give the split)"),
+    "C08": cfg(1500, 150000, ["C08."],
+               "queries as for C01 with a constraint set always attached (families: wide, narrow window around the originating joints, "
+               "any order in [-2pi,2pi], some joints from==to, wrapping) x sorting weights {0,1,0.3,0.5} x dof 5/6 x four entry "
+               "points, each run with and without the limits on the same query (cmp2) x wrapper stacks to depth 3 incl. a "
+               "parallelogram on top; constraints() of every stack. non-trivial = the constrained run returned a solution"),
 }
